@@ -14,7 +14,12 @@ for d in sorted(glob.glob(os.path.join(HERE, "seeded", "*", "meta.json"))):
     valid = c.get("demo_clean_exit") == 0 and c.get("demo_patched_exit") == 1 and c.get("tests_pass") in (True, None)
     first = "; ".join("%s %s (%ss)" % (k, "caught" if v.get("caught") else "MISSED", v.get("secs")) for k, v in (c.get("checks") or {}).items())
     a = m.get("after_strengthening")
-    now = "caught" if any(v.get("caught") for v in (c.get("checks") or {}).values()) else ("caught after strengthening: " + a["change"][:200].replace("|", "/") if a else "MISSED")
+    if isinstance(a, dict):
+        a = a.get("change")
+    spurious = m.get("first_catch_spurious")
+    if spurious:
+        first += " (through an unrelated bucket: counted as missed)"
+    now = "caught" if any(v.get("caught") for v in (c.get("checks") or {}).values()) and not spurious else ("caught after strengthening: " + a[:260].replace("|", "/") if a else "MISSED")
     if not valid:
         now = "not a valid seeded change (existing tests fail with it): kept for the record" if c.get("tests_pass") is False else now
     rows.append("| %s | %s | %s | %s | %s |" % (name, ", ".join(files), s, first, now))
